@@ -242,7 +242,15 @@ async def _main(case, obs, loop, net):
                 if r["outcome"][0] == "ok" and proc.txn_no:
                     for t in obs.txns:
                         if t["n"] == proc.txn_no:
-                            t["offsets"] = (st[2], dict(st[1]))
+                            if t["offsets"] and t["offsets"][0] == st[2]:
+                                # several calls in one transaction: a partition named by more than one of them may end
+                                # at either value (the calls may have been concurrent)
+                                t.setdefault("offsets_ambiguous", set()).update(set(t["offsets"][1]) & set(st[1]))
+                                merged = dict(t["offsets"][1])
+                                merged.update(st[1])
+                                t["offsets"] = (st[2], merged)
+                            else:
+                                t["offsets"] = (st[2], dict(st[1]))
                 r["offsets"] = (st[2], dict(st[1]))
             elif kind == "straggle":
                 # application tasks that keep sending while the main task goes on to end the transaction; they are
